@@ -330,6 +330,31 @@ Proof.
 Qed.
 
 
+(* the idiom: swapEndian of a uint16_t read through a reinterpret_cast of the byte pointer *)
+Definition rd16le (p : cexp) : cexp := KRd 2 p.
+Definition u16le (d : list Z) (p : Z) : Z := nth (Z.to_nat p) d 0 + 256 * nth (Z.to_nat p + 1) d 0.
+Lemma zbswap2 a b : byte_ok a -> byte_ok b -> zbswap 2 (a + 256 * b) = a * 256 + b.
+Proof.
+  intros Ha Hb. unfold byte_ok in *. unfold zbswap. change (Z.to_nat 2) with 2%nat.
+  change (be_enc 2 (a + 256 * b)) with [((a + 256 * b) / 256 ^ Z.of_nat 1) mod 256; ((a + 256 * b) / 256 ^ Z.of_nat 0) mod 256]. cbn [rev app].
+  change (256 ^ Z.of_nat 1) with 256. change (256 ^ Z.of_nat 0) with 1. unfold be_dec. cbn [be_dec_acc].
+  rewrite Z.div_1_r. lia.
+Qed.
+Lemma ceval_rd16le d env pe p : bytes_ok d -> ceval gen_reads d env pe = Ok p -> 0 <= p -> p + 2 <= zlen d ->
+  ceval gen_reads d env (rd16le pe) = Ok (u16le d p).
+Proof.
+  intros Hd He Hp Hl. unfold rd16le. cbn [ceval]. rewrite He. cbn [rbind].
+  replace ((0 <=? p) && (p + 2 <=? zlen d)) with true by (symmetry; apply andb_true_iff; split; apply Z.leb_le; lia).
+  f_equal. unfold take, drop. rewrite firstn_skipn_nth by (unfold zlen in Hl; lia).
+  change (Z.to_nat 2) with 2%nat. cbn [seq map le_dec]. unfold u16le.
+  replace (Z.to_nat p + 0)%nat with (Z.to_nat p) by lia. lia.
+Qed.
+Lemma zbswap_u16le d p : bytes_ok d -> 0 <= p -> p + 2 <= zlen d -> zbswap 2 (u16le d p) = u16 d p.
+Proof.
+  intros Hd Hp Hl. unfold u16le. rewrite zbswap2 by (apply nth_byte_ok; assumption).
+  rewrite u16_nb by lia. unfold nb. cbn [Z.to_nat Nat.add]. replace (S (Z.to_nat p)) with (Z.to_nat p + 1)%nat by lia. reflexivity.
+Qed.
+
 (* ---------- the model's validators in the vocabulary of the accessor lemmas ---------- *)
 Lemma valid_lin_alt d : valid_lin d = (8 <=? zlen d) && (nb d 0 7 <=? zlen d - 8).
 Proof. reflexivity. Qed.
@@ -382,6 +407,10 @@ Ltac settle := repeat match goal with
    | |- context [?x <? ?y] => first [replace (x <? y) with true by (symmetry; apply Z.ltb_lt; lia) | replace (x <? y) with false by (symmetry; apply Z.ltb_ge; lia)]
    | |- context [?x <=? ?y] => first [replace (x <=? y) with true by (symmetry; apply Z.leb_le; lia) | replace (x <=? y) with false by (symmetry; apply Z.leb_gt; lia)]
    | |- context [?x =? ?y] => first [replace (x =? y) with true by (symmetry; apply Z.eqb_eq; lia) | replace (x =? y) with false by (symmetry; apply Z.eqb_neq; lia)] end.
+Ltac fold_rd16be := repeat match goal with |- context [KRd 2 ?p] => change (KRd 2 p) with (rd16le p) end.
+Ltac read16be := match goal with |- context [ceval ?r ?d ?env (rd16le ?pe)] =>
+   let v := eval cbn [ceval rbind upd Nat.eqb env_of_list] in (ceval r d env pe) in
+   match v with Ok ?p => erewrite (ceval_rd16le d env pe p); [ | assumption | reflexivity | lia | lia ] end end.
 Ltac read16 := match goal with |- context [ceval ?r ?d ?env (rd16 ?pe)] =>
    let v := eval cbn [ceval rbind upd Nat.eqb env_of_list] in (ceval r d env pe) in
    match v with Ok ?p => erewrite (ceval_rd16 d env pe p); [ | assumption | reflexivity | lia | lia | lia ];
@@ -392,6 +421,7 @@ Ltac atom_facts Hd := repeat match goal with
   | |- context [nb ?d ?o ?i] => lazymatch goal with H : 0 <= nb d o i < 256 |- _ => fail | _ => pose proof (nb_ok d o i Hd : 0 <= nb d o i < 256) end
   | |- context [Z.land ?x ?m] => lazymatch goal with H : 0 <= Z.land x m <= m |- _ => fail | _ => pose proof (land_le_r x m ltac:(lia)) end
   | |- context [?x mod 2] => lazymatch goal with H : 0 <= x mod 2 < 2 |- _ => fail | _ => pose proof (Z.mod_pos_bound x 2 ltac:(lia)) end
+  | |- context [?x mod 2 ^ 16] => lazymatch goal with H : 0 <= x mod 2 ^ 16 < 2 ^ 16 |- _ => fail | _ => pose proof (Z.mod_pos_bound x (2 ^ 16) ltac:(lia)) end
   end.
 Ltac norm := rdc; repeat (rewrite b2z_eqb0 || rewrite negb_involutive); m64;
   repeat match goal with
@@ -402,6 +432,12 @@ Ltac norm := rdc; repeat (rewrite b2z_eqb0 || rewrite negb_involutive); m64;
       replace ((- 2 ^ (32 - 1) <=? z) && (z <? 2 ^ (32 - 1))) with true
         by (symmetry; apply andb_true_iff; split; [apply Z.leb_le|apply Z.ltb_lt]; change (2 ^ (32 - 1)) with 2147483648; lia)
   | |- context [Z.rem ?a 2] => rewrite (Z.rem_mod_nonneg a 2) by lia
+  | |- context [Z.quot ?a 2] => rewrite (Z.quot_div_nonneg a 2) by lia
+  | |- context [Z.quot ?a 4] => rewrite (Z.quot_div_nonneg a 4) by lia
+  | |- context [4 =? 0] => change (4 =? 0) with false
+  | |- context [(?x + 2 ^ (16 - 1)) mod 2 ^ 16 - 2 ^ (16 - 1)] => fail
+  | |- context [zbswap 2 (u16le ?d ?p)] => rewrite (zbswap_u16le d p) by (assumption || lia);
+      let c := fresh "c" in let R := fresh "R" in pose proof (u16_range d p ltac:(assumption)) as R; set (c := u16 d p) in *
   | |- context [2 =? 0] => change (2 =? 0) with false
   end; rdc; repeat (rewrite b2z_eqb0 || rewrite negb_involutive).
 Ltac case_on c :=
@@ -420,6 +456,7 @@ Ltac t2_step Hd :=
   [ progress (rewrite ?acc_lin_dl, ?acc_mh_plen, ?acc_mh_ptype, ?acc_mh_errflag, ?acc_mh_seg, ?acc_can_dl, ?acc_can_err,
                       ?acc_if_status, ?acc_eth_flags, ?acc_eth_dl, ?acc_an_dt by (assumption || lia))
   | read16
+  | read16be
   | match goal with
     | |- (if negb ?c then _ else _) = _ => case_on c
     | |- (if ?c then _ else _) = _ => case_on c
@@ -434,11 +471,13 @@ Ltac t2_finish Hd :=
           | |- context [?a <=? ?b] => destruct (Z.leb_spec a b)
           | |- context [?a =? ?b] => destruct (Z.eqb_spec a b)
           end; settle; rdc; try reflexivity);
-  try reflexivity; try (exfalso; lia).
+  try reflexivity; try (exfalso; lia);
+  try (repeat match goal with x := _ |- _ => subst x end;
+       first [ reflexivity | exfalso; lia | exfalso; congruence | f_equal; lia | do 2 f_equal; lia | do 3 f_equal; lia | do 4 f_equal; lia ]).
 (* obligations of the translator itself: which of the functions above exist but could not be translated on this run *)
 Definition lost_among (names : list string) : list (string * string) :=
   filter (fun e => existsb (String.eqb (fst e)) names) gen_code_lost.
 
 (* a translated body is `Some c`; `None` (the function no longer exists in the sources) leaves nothing to show *)
 Ltac t2_open def := let E := fresh "E" in intros E; unfold def in E; first [discriminate E | inversion E; subst; clear E].
-Ltac t2_solve Hd := fold_rd16; norm; atom_facts Hd; settle; norm; repeat (t2_step Hd); t2_finish Hd.
+Ltac t2_solve Hd := fold_rd16; fold_rd16be; norm; atom_facts Hd; settle; norm; repeat (t2_step Hd); t2_finish Hd.
